@@ -102,6 +102,10 @@ namespace awkward {
 
   int64_t
   RecordArrayBuilder::field_index() {
+    if (!list_field_index_.empty()) {
+      // inside an open list: everything belongs to the field that the list is in
+      return list_field_index_.back();
+    }
     // the field that the next value belongs to; then move on (round robin)
     int64_t out = field_index_;
     field_index_ = (field_index_ < contents_size_ - 1) ? field_index_ + 1 : 0;
@@ -154,7 +158,10 @@ namespace awkward {
     field_index_ = list_field_index_.back();
     contents_[(size_t)field_index_].get()->end_list(builder);
     list_field_index_.pop_back();
-    field_index();
+    if (!contents_[(size_t)field_index_].get()->active()) {
+      // the field's own list is closed (not a list nested in it): on to the next field
+      field_index();
+    }
   }
 
   bool
